@@ -58,6 +58,11 @@ def run(rep, ctx):
     rep.obligation('exploration c17: identical results in orders %s' % orders, not any(j[1] != 'natural' and j[1] != 'pool' for w in diverged.values() for j in w))
     rep.obligation('exploration c17: identical results when the workload is repeated in one long-lived process and in a process pool with reused workers',
                    all(r['stable_across_passes'] for r in results) and not any(j[1] == 'pool' or j[2] > 1 for w in diverged.values() for j in w))
+    same = all(r.get('same_args_same_result', True) for r in results)
+    if not same:
+        rep.violation('c17-same-args', {'what': 'two calls with identical arguments in one process returned different results (workload cases chain-*-0 / chain-*-1)',
+                                        'replay_cmd': 'PYTHONPATH=/repo /venv/bin/python harness/purity_worker.py natural'})
+    rep.obligation('exploration c17: identical arguments give identical results within one process (versions of a page diffed in a row)', same)
     hdr = all(r['headers_unchanged'] for r in results)
     if not hdr:
         rep.violation('c17-headers', {'what': 'a differ modified the header mapping it was given', 'replay_cmd': 'harness/purity_worker.py natural'})
@@ -65,7 +70,7 @@ def run(rep, ctx):
     # colour environment: only the style blocks may change
     col = run_worker(0, 'natural', 1, {'DIFFER_COLOR_INSERTION': '#010203', 'DIFFER_COLOR_DELETION': '#040506'})
     changed = sorted(c for c, d in col['digests'].items() if base['digests'][c] != d)
-    ok_col = all(c.startswith(('render-', 'archived-', 'links-html-')) for c in changed)
+    ok_col = all(c in set(col.get('styled', [])) for c in changed)      # only the results of html_token and links carry a style block
     rep.count(('colours',), True)
     if not ok_col:
         rep.violation('c17-colours', {'what': 'the colour variables changed results that carry no styling', 'cases': changed[:10]})
